@@ -124,7 +124,7 @@ func runGenerated(c *core.Case) {
 var leafTypes = []reflect.Type{
 	reflect.TypeOf(false), reflect.TypeOf(int(0)), reflect.TypeOf(int32(0)), reflect.TypeOf(int64(0)), reflect.TypeOf(uint(0)), reflect.TypeOf(uint32(0)), reflect.TypeOf(uint64(0)),
 	reflect.TypeOf(float32(0)), reflect.TypeOf(float64(0)), reflect.TypeOf(""), reflect.TypeOf([]byte(nil)), reflect.TypeOf([4]byte{}), reflect.TypeOf([16]byte{}),
-	ptypes.TMsg, ptypes.TGogo, ptypes.TRaw, reflect.TypeOf(struct{ A, B int32 }{}),
+	ptypes.TMsg, ptypes.TGogo, ptypes.TGogoV, ptypes.TRaw, reflect.TypeOf(struct{ A, B int32 }{}),
 }
 
 // top-level values of every leaf kind, in every wrapper (value, pointer field, repeated, map)
